@@ -19,7 +19,7 @@
   (`cl.ty = cr.ty`, float class for `FloatCmp`) — `IntCmp_needs_same_type` shows
   the assumption is necessary.
 -/
-import RotoV.Lemmas.Scalar
+import RotoV.Lemmas.ScalarEval
 
 namespace RotoV.C20
 open RotoV RotoV.Gen RotoV.Gen.OpTables RotoV.Gen.EvalArms
